@@ -1,1 +1,440 @@
-PROPERTY='C18'
+"""C18 -- spooled files behave the same in memory and on disk; MultiFileReader concatenates.
+
+Engine: simfs (thin).  What the caller cannot see or choose is *when* the object moves
+from memory to a temporary file and how much of the temporary file's data sits in a
+user-space buffer (the platform's st_blksize) when os.fstat or a later read looks at
+it.  The simulator owns both: replicas of one history run in lock-step -- never rolls,
+rolls at the first write, rolls at a seeded max_size, rolls when the scheduler calls
+rollover()/fileno() at a seeded step -- each over a simulated temporary file with its
+own write-back size, next to the io.BytesIO / io.StringIO reference.
+"""
+import io
+
+from simkit import core, shrinkers
+from engines import simfs
+
+PROPERTY = 'C18'
+ENGINE = 'simfs'
+LEVEL = 'exploration'
+SOURCE_FILES = ['boltons/ioutils.py']
+SIM_TIME_UNIT = 'file operations executed per replica'
+TIERS = {
+    'quick': {'budget_s': 15, 'min_runs': 8000, 'block': 200},
+    'thorough': {'budget_s': 600, 'min_runs': 600000, 'block': 1000},
+}
+RULE = ('A case is (bytes|text, a history of 1-25 operations from appending write / read(n) / read() / readline / '
+        'readlines / next / list / seek(p in 0..len) / tell / getvalue / len, content alphabet with 1-4 byte code '
+        'points and \\n, \\r\\n, \\r, replica configurations, READ_CHUNK_SIZE knob) or a MultiFileReader case '
+        '(content partitioned into 1-5 members, mix of read(n)/read()/seek(0)). Every replica must return what the '
+        'io reference returns at every step and agree on tell(). Non-trivial: some replica rolled over strictly '
+        'between two operations that both touched data and the history contained a multi-byte character or \\r '
+        '(text) / a read after a seek (bytes); for MultiFileReader: a sized read crossed a member boundary or '
+        'followed seek(0). distinct = distinct case hashes among those.')
+COMPONENTS = {'real': ['boltons.ioutils.SpooledBytesIO', 'boltons.ioutils.SpooledStringIO', 'boltons.ioutils.MultiFileReader',
+                       'codecs.EncodedFile', 'CPython io.BufferedRandom over the simulated temp file'],
+              'stub': ['tempfile.TemporaryFile as seen by ioutils (simfs anonymous file with a seeded write-back size)',
+                       'os.fstat for simulated descriptors', 'the rollover instant (harness calls rollover()/fileno())']}
+ASSUMPTIONS = ['reference = io.BytesIO() / io.StringIO() (lines end at \\n only)',
+               'write() return values are compared between replicas only (the spooled classes return None like Python 2 files); every other listed call is compared with the io reference',
+               'writes are issued only when the reference position is at the end of the data (appending writes); seeks stay within 0..len',
+               'READ_CHUNK_SIZE is a tuning knob and is varied per run (21333, 7, 3)']
+
+iou = None
+_REAL_OS = None
+
+
+def setup(root):
+    global iou, _REAL_OS
+    import os
+    import boltons.ioutils as m
+    iou = m
+    _REAL_OS = os
+
+
+class _OsProxy:
+    def __init__(self, sim):
+        self._sim = sim
+
+    def fstat(self, fd):
+        if fd in self._sim.fs.fds:
+            self._sim.event('fstat', fd)
+            return simfs.StatResult(self._sim.fs.inodes[self._sim.fs.fds[fd].ino])
+        return _REAL_OS.fstat(fd)
+
+    def __getattr__(self, name):
+        return getattr(_REAL_OS, name)
+
+
+class _TempFactory:
+    """ioutils.TemporaryFile replacement: anonymous simulated file, real BufferedRandom on top."""
+
+    def __init__(self, sim, simos, bufsize):
+        self.sim, self.simos, self.bufsize = sim, simos, bufsize
+        self.made = 0
+
+    def __call__(self, mode='w+b', buffering=-1, dir=None, **kw):
+        self.made += 1
+        name = '/sim/dir/tmp%d' % self.made
+        fd = self.simos.open(name, _REAL_OS.O_RDWR | _REAL_OS.O_CREAT | _REAL_OS.O_EXCL, 0o600)
+        self.simos.unlink(name)
+        return self.simos.fdopen(fd, 'w+b', self.bufsize)
+
+
+TEXT_ALPHA = ['a', 'b', 'c', ' ', '\n', '\n', '\n', '\r\n', '\r', 'é', '—', '\U0001F600', 'ß', '日',
+              '\x85', '\u2028', '\x0b', '\x0c', '\x1c']
+BYTE_ALPHA = [b'a', b'b', b'\n', b'\n', b'\r\n', b'\r', b'\x00', b'\xff', b'xyz']
+
+
+def _chunk(rng, text, n):
+    if text:
+        return ''.join(rng.choice(TEXT_ALPHA) for _ in range(n))
+    return b''.join(rng.choice(BYTE_ALPHA) for _ in range(n)).hex()
+
+
+def gen_case(rng, tier):
+    if rng.random() < 0.2:
+        return _gen_mfr(rng)
+    text = rng.random() < 0.6
+    ops = []
+    length = 0          # code points / bytes of data so far (tracked approximately; run_case is exact)
+    nops = rng.randint(1, 25)
+    for _ in range(nops):
+        r = rng.random()
+        if r < 0.28 or not ops:
+            n = rng.choice([0, 1, 2, 3, 5, 9, 17]) if rng.random() < 0.9 else rng.randint(20, 60)
+            ops.append(['write', _chunk(rng, text, n)])
+        elif r < 0.42:
+            ops.append(['read', rng.choice([1, 2, 3, 5, 8, 100])])
+        elif r < 0.48:
+            ops.append(['read', -1])
+        elif r < 0.58:
+            ops.append(['readline'])
+        elif r < 0.62:
+            ops.append(['readlines'])
+        elif r < 0.68:
+            ops.append(['next'])
+        elif r < 0.71:
+            ops.append(['list'])
+        elif r < 0.85:
+            ops.append(['seek', rng.random()])          # fraction of the current length
+        elif r < 0.90:
+            ops.append(['tell'])
+        elif r < 0.95:
+            ops.append(['getvalue'])
+        else:
+            ops.append(['len'])
+    replicas = [{'max_size': 1 << 40, 'bufsize': 8192, 'roll_at': None},
+                {'max_size': 1, 'bufsize': rng.choice([1, 8, 64, 8192]), 'roll_at': None},
+                {'max_size': rng.randint(2, 40), 'bufsize': rng.choice([1, 8, 64, 8192]), 'roll_at': None},
+                {'max_size': 1 << 40, 'bufsize': rng.choice([1, 8, 64, 8192]),
+                 'roll_at': rng.randint(0, nops), 'roll_how': rng.choice(['rollover', 'fileno'])}]
+    return {'mode': 'text' if text else 'bytes', 'ops': ops, 'replicas': replicas,
+            'chunk': rng.choice([21333, 21333, 7, 3]), 'getvalue_every_step': rng.random() < 0.3}
+
+
+def _gen_mfr(rng):
+    text = rng.random() < 0.5
+    n = rng.randint(0, 30)
+    content = _chunk(rng, text, n)
+    if not text:
+        content_len = len(content) // 2
+    else:
+        content_len = len(content)
+    k = rng.randint(1, 5)
+    cuts = sorted(rng.randint(0, content_len) for _ in range(k - 1))
+    kinds = [rng.choice(['io', 'spooled', 'spooled-rolled']) for _ in range(k)]
+    ops = []
+    for _ in range(rng.randint(1, 10)):
+        r = rng.random()
+        if r < 0.6:
+            ops.append(['read', rng.choice([1, 2, 3, 5, 8, 13, 40])])
+        elif r < 0.8:
+            ops.append(['read', None])
+        else:
+            ops.append(['seek0'])
+    return {'mode': 'mfr-text' if text else 'mfr-bytes', 'content': content, 'cuts': cuts, 'kinds': kinds,
+            'ops': ops, 'bufsize': rng.choice([1, 8, 8192])}
+
+
+def fixed_cases(tier):
+    return [
+        {'mode': 'text', 'ops': [['write', 'aé—b\nxy'], ['seek', 0.3], ['len'], ['tell'], ['read', 2]],
+         'replicas': [{'max_size': 1 << 40, 'bufsize': 8192, 'roll_at': None}, {'max_size': 1, 'bufsize': 8, 'roll_at': None}],
+         'chunk': 21333, 'getvalue_every_step': False},
+        {'mode': 'bytes', 'ops': [['write', b'ab\ncd'.hex()], ['len'], ['seek', 0.5], ['read', 2], ['write', b'zz'.hex()]],
+         'replicas': [{'max_size': 1 << 40, 'bufsize': 8192, 'roll_at': None}, {'max_size': 3, 'bufsize': 8192, 'roll_at': None}],
+         'chunk': 21333, 'getvalue_every_step': False},
+        {'mode': 'mfr-bytes', 'content': b'abcde'.hex(), 'cuts': [2, 4], 'kinds': ['io', 'io', 'io'],
+         'ops': [['read', 3], ['seek0'], ['read', 3], ['read', None]], 'bufsize': 8192},
+    ]
+
+
+def case_size(case):
+    return len(case['ops']) + sum(len(o[1]) for o in case['ops'] if o[0] == 'write') + len(case.get('replicas', [])) \
+        + len(case.get('content', '')) // 2
+
+
+def describe_case(case):
+    return case
+
+
+# ------------------------------------------------------------------------------------------
+
+def _install(sim, bufsize):
+    simos = simfs.SimOS(sim)
+    fac = _TempFactory(sim, simos, bufsize)
+    iou.TemporaryFile = fac
+    iou.os = _OsProxy(sim)
+    return fac
+
+
+def _do(f, op, text, ref_len):
+    """Apply one op to file object f. -> (kind, value)"""
+    name = op[0]
+    try:
+        if name == 'write':
+            data = op[1] if text else bytes.fromhex(op[1])
+            return ('ok', f.write(data))
+        if name == 'read':
+            return ('ok', f.read(op[1]) if op[1] != -1 else f.read())
+        if name == 'readline':
+            return ('ok', f.readline())
+        if name == 'readlines':
+            return ('ok', f.readlines())
+        if name == 'next':
+            try:
+                return ('ok', next(f))
+            except StopIteration:
+                return ('stop', None)
+        if name == 'list':
+            return ('ok', list(f))
+        if name == 'seek':
+            return ('ok', f.seek(int(round(op[1] * ref_len))))
+        if name == 'tell':
+            return ('ok', f.tell())
+        if name == 'getvalue':
+            return ('ok', f.getvalue())
+        if name == 'len':
+            return ('ok', len(f) if not isinstance(f, (io.BytesIO, io.StringIO)) else len(f.getvalue()))
+        raise AssertionError(name)
+    except Exception as e:
+        return ('exc', '%s: %s' % (type(e).__name__, str(e)[:80]))
+
+
+def run_case(case):
+    if case['mode'].startswith('mfr'):
+        return _run_mfr(case)
+    out = core.Outcome()
+    log = core.EventLog(keep=False)
+    text = case['mode'] == 'text'
+    iou.READ_CHUNK_SIZE = case.get('chunk', 21333)
+    ref = io.StringIO() if text else io.BytesIO()
+    cls = iou.SpooledStringIO if text else iou.SpooledBytesIO
+    reps = []
+    for rc in case['replicas']:
+        fs = simfs.SimFS()
+        sim = simfs.Sim(fs, simfs.Plan(), None, blksize=8192)
+        reps.append({'cfg': rc, 'sim': sim, 'f': None, 'rolled_at': None})
+    for rp in reps:
+        _install(rp['sim'], rp['cfg']['bufsize'])
+        rp['f'] = cls(max_size=rp['cfg']['max_size'])
+    touched_before_roll = False
+    nontriv = False
+    special = False
+    read_after_seek = False
+    seeked = False
+    steps = 0
+    try:
+        for i, op in enumerate(case['ops']):
+            name = op[0]
+            ref_len = len(ref.getvalue())
+            if name == 'write' and ref.tell() != ref_len:
+                continue                  # only appending writes are in the statement
+            if name == 'write' and text and any(ord(ch) > 127 or ch == '\r' for ch in op[1]):
+                special = True
+            if name == 'seek':
+                seeked = True
+            if name in ('read', 'readline', 'readlines', 'next', 'list') and seeked:
+                read_after_seek = True
+            want = _do(ref, op, text, ref_len)
+            log.add('op', i, name, repr(want)[:200])
+            for ri, rp in enumerate(reps):
+                _install(rp['sim'], rp['cfg']['bufsize'])
+                f = rp['f']
+                if rp['cfg'].get('roll_at') == i and not f._rolled:
+                    if rp['cfg'].get('roll_how') == 'fileno':
+                        f.fileno()
+                    else:
+                        f.rollover()
+                    out.fault('scheduler_rollover')
+                was_rolled = f._rolled
+                got = _do(f, op, text, ref_len)
+                steps += 1
+                if f._rolled and rp['rolled_at'] is None:
+                    rp['rolled_at'] = i
+                    if i > 0:
+                        out.probe('rollover_mid_history')
+                if name == 'write':
+                    if got[0] != 'ok':
+                        return _fail(out, log, 'spooled-diverges', i, case, ri, op, got, want, steps)
+                    if ri and got != first_write:
+                        return _fail(out, log, 'spooled-diverges', i, case, ri, op, got, first_write, steps)
+                    first_write = got
+                elif got != want:
+                    return _fail(out, log, 'spooled-diverges', i, case, ri, op, got, want, steps)
+                # position after every step
+                t = _do(f, ['tell'], text, 0)
+                if t != ('ok', ref.tell()):
+                    return _fail(out, log, 'position-diverges', i, case, ri, op, t, ('ok', ref.tell()), steps)
+                if case.get('getvalue_every_step'):
+                    g = _do(f, ['getvalue'], text, 0)
+                    if g != ('ok', ref.getvalue()):
+                        return _fail(out, log, 'content-diverges', i, case, ri, op, g, ('ok', ref.getvalue()), steps)
+        # end: same content and position
+        for ri, rp in enumerate(reps):
+            _install(rp['sim'], rp['cfg']['bufsize'])
+            g = _do(rp['f'], ['getvalue'], text, 0)
+            if g != ('ok', ref.getvalue()):
+                return _fail(out, log, 'content-diverges', len(case['ops']), case, ri, ['getvalue'], g,
+                             ('ok', ref.getvalue()), steps)
+            t = _do(rp['f'], ['tell'], text, 0)
+            if t != ('ok', ref.tell()):
+                return _fail(out, log, 'position-diverges', len(case['ops']), case, ri, ['getvalue'], t,
+                             ('ok', ref.tell()), steps)
+    finally:
+        for rp in reps:
+            try:
+                rp['f'].close()
+            except Exception:
+                pass
+            rp['sim'].dispose()
+    out.steps = steps
+    out.sim_time = float(steps)
+    out.digest = log.digest()
+    nontriv = any(rp['rolled_at'] is not None and 0 < rp['rolled_at'] < len(case['ops']) - 1 for rp in reps) \
+        and (special if text else read_after_seek)
+    if nontriv:
+        out.nontrivial.append(core.h64([case['mode'], case['ops'], case['replicas'], case.get('chunk')]))
+    return out
+
+
+def _fail(out, log, cls, i, case, ri, op, got, want, steps):
+    rc = case['replicas'][ri]
+    out.fail(cls, i, '%s replica %d (max_size=%r, write-back %r, roll_at=%r) at step %d %r: got %r, io reference %r'
+             % (case['mode'], ri, rc['max_size'], rc['bufsize'], rc.get('roll_at'), i, op, got, want),
+             mode=case['mode'], op=op[0])
+    out.steps = steps
+    out.digest = log.digest()
+    return out
+
+
+def _run_mfr(case):
+    out = core.Outcome()
+    log = core.EventLog(keep=False)
+    text = case['mode'] == 'mfr-text'
+    content = case['content'] if text else bytes.fromhex(case['content'])
+    cuts = [min(c, len(content)) for c in case['cuts']]
+    bounds = [0] + sorted(cuts) + [len(content)]
+    parts = [content[a:b] for a, b in zip(bounds, bounds[1:])]
+    kinds = (case['kinds'] + ['io'] * len(parts))[:len(parts)]
+    fs = simfs.SimFS()
+    sim = simfs.Sim(fs, simfs.Plan(), None)
+    _install(sim, case.get('bufsize', 8192))
+    members = []
+    for part, kind in zip(parts, kinds):
+        if kind == 'io':
+            m = io.StringIO(part) if text else io.BytesIO(part)
+        else:
+            m = (iou.SpooledStringIO if text else iou.SpooledBytesIO)(max_size=1 if kind == 'spooled-rolled' else 1 << 40)
+            m.write(part)
+            m.seek(0)
+        members.append(m)
+    pos = 0
+    steps = 0
+    crossed = after_seek = False
+    seeked = False
+    try:
+        try:
+            mfr = iou.MultiFileReader(*members)
+        except Exception as e:
+            out.fail('mfr-wrong', 0, 'MultiFileReader(%s) raised %r' % (kinds, e), mode=case['mode'], op='init')
+            return out
+        empty = '' if text else b''
+        for i, op in enumerate(case['ops']):
+            steps += 1
+            try:
+                if op[0] == 'seek0':
+                    mfr.seek(0)
+                    pos = 0
+                    seeked = True
+                    log.add('seek0')
+                    continue
+                n = op[1]
+                got = mfr.read(n) if n is not None else mfr.read()
+            except Exception as e:
+                out.fail('mfr-wrong', i, '%r raised %r' % (op, e), mode=case['mode'], op=op[0])
+                break
+            want = content[pos:pos + n] if n is not None else content[pos:]
+            log.add('read', n, repr(got))
+            if got != want:
+                out.fail('mfr-wrong', i,
+                         'members %r (%s), after %r: %r returned %r, concatenation gives %r'
+                         % (parts, kinds, case['ops'][:i], op, got, want), mode=case['mode'], op=op[0])
+                break
+            if n is not None:
+                for b in bounds[1:-1]:
+                    if pos < b < pos + len(got):
+                        crossed = True
+                if seeked:
+                    after_seek = True
+            pos += len(got)
+    finally:
+        for m in members:
+            try:
+                m.close()
+            except Exception:
+                pass
+        sim.dispose()
+    if crossed:
+        out.probe('mfr_read_crosses_member_boundary')
+    if after_seek:
+        out.probe('mfr_sized_read_after_seek0')
+    if crossed or after_seek:
+        out.nontrivial.append(core.h64([case['mode'], case['content'], case['cuts'], case['ops']]))
+    out.steps = steps
+    out.sim_time = float(steps)
+    out.digest = log.digest()
+    return out
+
+
+def shrink(case, fails):
+    c = shrinkers.shrink_list_field(case, 'ops', fails)
+    if 'replicas' in c:
+        c = shrinkers.shrink_list_field(c, 'replicas', fails, min_len=1)
+        for simple in ({'chunk': 21333}, {'getvalue_every_step': False}):
+            c = shrinkers.try_set(c, simple, fails)
+        # shorten written data
+        for i, op in enumerate(c['ops']):
+            if op[0] == 'write' and len(op[1]) > 1:
+                from simkit.core import ddmin
+                if c['mode'] == 'text':
+                    units = list(op[1])
+                    join = ''.join
+                else:
+                    units = [op[1][j:j + 2] for j in range(0, len(op[1]), 2)]
+                    join = ''.join
+
+                def test(sub, i=i):
+                    c2 = dict(c)
+                    c2['ops'] = list(c['ops'])
+                    c2['ops'][i] = ['write', join(sub)]
+                    return fails(c2)
+                small = ddmin(units, test)
+                if len(small) < len(units):
+                    c = dict(c)
+                    c['ops'] = list(c['ops'])
+                    c['ops'][i] = ['write', join(small)]
+    else:
+        c = shrinkers.shrink_list_field(c, 'cuts', fails)
+        c = shrinkers.try_set(c, {'kinds': ['io'] * 5}, fails)
+    return c
